@@ -52,7 +52,7 @@ func checkC02(w *core.W, c *GrammarCase) {
 	res := ref.Parse(c.Src)
 	var sc *formula.SourceCode
 	var err error
-	panicked, pv := core.Call(func() { sc, err = formula.ParseSourceCode(c.Src) })
+	panicked, pv := core.Call(func() { sc, err = hostParse(c.Src, true) })
 	q := fmt.Sprintf("%q", clipS(string(c.Src), 160))
 	if panicked {
 		w.Violation("tree-vs-grammar", "C02/escaped-panic", c, res.Describe(), fmt.Sprint(pv), "panic escaped the parser on "+q)
